@@ -67,7 +67,14 @@ def run(ctx):
             n += 1
             filt = captured[0]
             c = prog.by_path.get(filt[1]) or f
-            takes_node = not suffix
+            # what the filter is applied to: the traversal's items (nodes, or operators for the mutable walk), possibly mapped first
+            # (`self.iter().map(Node::operator).filter_map(..)`): a map keeps every item and the order, so the mapped item is used
+            src = captured_src[0] if captured_src else None
+            maps = []
+            while src is not None and src[0] == 'app' and src[1].split('#')[0].endswith('iter::Iterator::map') and len(src[2]) == 2 and src[2][1][0] in ('closure', 'fn'):
+                maps.insert(0, src[2][1])
+                src = src[2][0]
+            takes_node = not (src is not None and src[0] == 'app' and src[1].endswith('iter_operators_mut'))
             got = set()
             bad = False
             for v in op['variants']:
@@ -75,6 +82,19 @@ def run(ctx):
                 opv = ADT(op['path'], v['idx'], v['name'], fields)
                 arg = ADT(node['path'], 0, 'Node', [opv, SYM('children')]) if takes_node else opv
                 it = Interp(prog)
+                for g_ in maps:
+                    try:
+                        r_ = it.apply_callable(g_, [arg], 0)
+                    except Budget:
+                        r_ = None
+                    ps_ = r_[1] if (isinstance(r_, tuple) and r_ and r_[0] == 'paths') else ([(r_, ())] if r_ is not None else [])
+                    arg = ps_[0][0] if len(ps_) == 1 else None
+                    if arg is None:
+                        break
+                if arg is None:
+                    ctx.unrecognised('R14.1', name, 'mapped-item', 'the item mapping before the filter is not a single-valued function of the node', span=c.span)
+                    bad = True
+                    break
                 try:
                     res = it.apply_callable(filt, [arg], 0)
                 except Budget:
@@ -108,13 +128,12 @@ def run(ctx):
                 ctx.sample(dict(rule='R14.1', method=name, selects=sorted(got)))
             # R14.2 traversal + adaptor
             want_trav = 'tree::iter::<impl tree::Node>::iter_operators_mut' if suffix else 'tree::iter::<impl tree::Node>::iter'
-            src = captured_src[0] if captured_src else None
             trav_ok = src is not None and src[0] == 'app' and src[1] == want_trav and src[2] == (SYM('self'),)
             ctx.check(trav_ok, 'R14.2', name + ':traversal', 'traversal', '%s filters the traversal %s(self) directly (found %s)' % (name, want_trav, fmt(src)[:120] if src else None), span=f.span)
             # nothing is stacked on top of the filter: the method (and a private helper it may go through) makes no other non-local call
             chain = [f] + [g for g in prog.fns if g.kind != 'Closure' and any(t_['callee'].get('local') and short(t_['callee']['def']) == short(g.path) for _b, t_ in f.calls()) and 'tree::iter' not in g.path]
-            std_calls = sorted({t_['callee']['name'] for g in chain for _b, t_ in g.calls() if not t_['callee'].get('local')})
-            ctx.check(std_calls == ['filter_map'], 'R14.2', name + ':adaptor', 'adaptor', 'the only iterator adaptor is filter_map (found %s)' % std_calls, span=f.span)
+            std_calls = sorted(t_['callee']['name'] for g in dict((g_.path, g_) for g_ in chain).values() for _b, t_ in g.calls() if not t_['callee'].get('local'))
+            ctx.check(std_calls == ['filter_map'] + ['map'] * len(maps), 'R14.2', name + ':adaptor', 'adaptor', 'the only iterator adaptor is filter_map, after %d item mapping(s) (found %s)' % (len(maps), std_calls), span=f.span)
     ctx.floor('R14.1', 'iterator_filters', n, 10)
     for base in WANT:
         if base in selected and base + '_mut' in selected:
@@ -288,7 +307,8 @@ def r14_4(ctx, prog):
         callers = [(g, cb, t) for g in prog.fns for cb, t in g.calls() if t['callee'].get('local') and short(t['callee']['def']) == short(f.path)]
         ctx.ok('R14.4', '%s:%s:helper' % (short(f.path), vn), 'private helper that builds %s from its own parameter; its %d call site(s) are checked instead' % (vn, len(callers)), span=sp)
         for g, cb, t in callers:
-            work.append((g, cb, vn, t.get('span'), depth + 1))
+            og = owner(g)
+            work.append((og, cb if og is g else 0, vn, t.get('span'), depth + 1))
     # every remaining reporting site is attributed to a root: a dispatcher (Operator::eval / eval_mut, directly or through crate-private
     # functions called only from it), a Context::call_function implementation, or a derived impl. The roots are then decided by
     # interpreting them, so the arm a site sits in, or the helper it was moved to, does not matter.
